@@ -346,10 +346,10 @@ def twoSegs : Hist := match Hist.init.run
   | .error _ => Hist.init
 
 set_option maxRecDepth 20000 in
-example : ∃ g rest e, twoSegs.st.segs = ({ base := 4194304, size := 393216, recAt := 0 } : Seg) :: g :: rest ∧
+example : ∃ g rest e, twoSegs.st.segs = ({ base := 4194304, size := 327680, recAt := 0 } : Seg) :: g :: rest ∧
     findEnt twoSegs.st.h.ents (align_as_chunk g.base) = some e ∧ e.inuse = false ∧
     align_as_chunk g.base + e.size ≥ g.base + (g.size - top_foot_size) := by
-  refine ⟨{ base := 1048576, size := 262144, recAt := 1310096 }, [{ base := 8388608, size := 65536, recAt := 8454080 }],
+  refine ⟨{ base := 1048576, size := 262144, recAt := 1310656 }, [{ base := 8388608, size := 65536, recAt := 8454080 }],
     { addr := 1048576, size := 262064, cin := false, pin := true, pfoot := 0 }, by decide, by decide, by decide, by decide⟩
 
 end TinyVerif.Dl
